@@ -210,10 +210,10 @@ def find_cells(out, text):
     return None
 
 
-def run_probe(opt, style, true_color, extra=None, light=False):
+def run_probe(opt, style, true_color, extra=None, light=False, theme='none'):
     data, parent = probe_input(opt)
     _, add = PROBES[opt]
-    args = ['--paging', 'never', '--no-gitconfig', '--syntax-theme', 'none', '--true-color', 'always' if true_color else 'never', '--light' if light else '--dark']
+    args = ['--paging', 'never', '--no-gitconfig', '--syntax-theme', theme, '--true-color', 'always' if true_color else 'never', '--light' if light else '--dark']
     args += add
     if style is not None:
         args += ['--' + opt + '=' + style]
@@ -272,6 +272,12 @@ def plan(ctx):
                 items.append(('str', 'normal %d' % n, opt, n % 2 == 0, n))
     for i in range(ctx.n(600, 20000)):
         items.append(('rand', None, opts[i % len(opts)], i % 3 != 0, engine.stable_hash((ctx.seed, 'c12r', i))))
+    # a style that does not say 'syntax', given alone on the command line, with a syntax theme active, in both views: the text
+    # carries what the string says (side-by-side view changes the *defaults* of the removed-line styles, not what the user gives)
+    for opt in ('minus-style', 'minus-emph-style', 'minus-non-emph-style', 'plus-style', 'plus-emph-style', 'zero-style'):
+        for st in ('normal 124', 'normal "#901011"', '231 52', 'bold 17 229', 'normal', 'italic normal 28', 'NORMAL 124'):
+            for sbs_ in (False, True):
+                items.append(('themed', st, opt, sbs_, 0))
     # the styles delta itself chooses (nothing given): light and dark mode x both colour modes.  What --show-config reports for
     # them, supplied again, must give the same rendering - and a default is a colour of the mode's own kind
     for opt in opts:
@@ -331,10 +337,41 @@ def run_default_item(opt, light, true_color):
     return o
 
 
+def run_themed_item(opt, shown, sbs_):
+    ref = Ref(shown)
+    extra = ['--side-by-side', '--width', '200'] if sbs_ else []
+    sets = {'options': [opt], 'color_mode': ['24bit'], 'with_syntax_theme': ['side-by-side' if sbs_ else 'unified']}
+    res, _ = run_probe(opt, shown, True, extra=extra, theme='Dracula')
+    c = crashmod.classify(res)
+    if c is not None:
+        return violated('c12:crash:' + c['signature'], c['detail'], run=res, sets=sets)
+    if res.rc != 0:
+        return inconclusive('exit %d: %s' % (res.rc, res.err[:100]), sets=sets)
+    cells = find_cells(res.out, PROBES[opt][0])
+    if cells is None:
+        return violated('c12:text-missing', 'probe text not found in the output for style %r' % shown, PROBES[opt][0], None, run=res, sets=sets)
+
+    def want(c):
+        return None if c in (('none',), ('syntax',)) else c
+    for cl in cells:
+        if not cl.ch.strip():
+            continue
+        for which, got, exp in (('foreground', cl.fg, want(ref.fg)), ('background', cl.bg, want(ref.bg))):
+            if got != exp:
+                return violated('c12:%s-mismatch-with-theme:%s' % (which, opt), 'with a syntax theme active (%s view) text painted with --%s %r has %s %r, the style string says %r'
+                                % ('side-by-side' if sbs_ else 'unified', opt, shown, which, got, exp), repr(exp), repr(got), run=res, sets=sets)
+        if cl.attrs != frozenset(ref.attrs):
+            return violated('c12:attributes-mismatch-with-theme:%s' % opt, 'attributes %s, the style string %r says %s' % (sorted(cl.attrs), shown, sorted(ref.attrs)),
+                            sorted(ref.attrs), sorted(cl.attrs), run=res, sets=sets)
+    return held(sig=('themed', opt, shown, sbs_), nontrivial=True, counters={'cells_checked': len(cells), 'themed_probes': 1}, sets=sets)
+
+
 def run_item(item):
     kind, s, opt, true_color, seed = item
     if kind == 'default':
         return run_default_item(opt, s == 'light', true_color)
+    if kind == 'themed':
+        return run_themed_item(opt, s, true_color)
     rng = engine.item_rng(seed)
     if kind == 'rand':
         toks = []
